@@ -9,7 +9,7 @@ from jv.interp import NS
 ext, _ = extern.make_world_externals(lambda: None)
 import jax, jax.numpy as jnp, equinox as eqx, optax
 REAL = {"jnp": jnp, "jax": jax, "jax.lax": jax.lax, "jax.random": jax.random, "jax.tree_util": jax.tree_util, "jax.tree": jax.tree,
-        "eqx": eqx, "optax": optax, "jnp.linalg": jnp.linalg}
+        "eqx": eqx, "optax": optax, "jnp.linalg": jnp.linalg, "jax.nn": jax.nn}
 seen = set()
 
 
@@ -39,6 +39,9 @@ def walk(ns, path):
         if any(kind == inspect.Parameter.VAR_POSITIONAL for _, kind in mp) and len(mp) <= 2:
             print(f"  [generic *args model] {path}.{k}: real {[n for n, _ in rp]}")
             continue
+        ren = {v_: k_ for k_, v_ in extern._API_NAMES.get(path, {}).get(k, {}).items()}      # model name -> real name
+        mp = [(ren.get(n, n), kind) for n, kind in mp]
+        rp = [(n, kind) for n, kind in rp if n not in extern._IMMATERIAL]
         rn = [n for n, kind in rp if kind in (inspect.Parameter.POSITIONAL_OR_KEYWORD, inspect.Parameter.KEYWORD_ONLY)]
         mn = [n for n, kind in mp if kind in (inspect.Parameter.POSITIONAL_OR_KEYWORD, inspect.Parameter.KEYWORD_ONLY)]
         has_kw = any(kind == inspect.Parameter.VAR_KEYWORD for _, kind in mp)
